@@ -188,8 +188,9 @@ def v_tma(c):
 # ------------------------------------------------------------------------------- spreading
 
 
-@contract(DR + "cartwright", props=["C15"], scenarios=[{"dm_kind": "scalar"}, {"dm_kind": "array"}])
-def v_cartwright(c, dm_kind):
+@contract(DR + "cartwright", props=["C15"], scenarios=[{"dm_kind": "scalar"}, {"dm_kind": "array"},
+                                                         {"dm_kind": "scalar", "under_90": True}, {"dm_kind": "array", "under_90": True}])
+def v_cartwright(c, dm_kind, under_90=False):
     """non-negative and integrating to one over a full uniform circle, for every mean
     direction (also next to 0/360) and spread"""
     m = c.m
@@ -214,7 +215,7 @@ def v_cartwright(c, dm_kind):
             spr = X.DA(sprA, dims=("pos",), coords={"pos": pc}, name="dspr")
             p = c.index("p", npos)
             pos = {"pos": p}
-        out = c.call(dirc, dm, spr)
+        out = c.call(dirc, dm, spr, under_90=under_90)
         j = c.index("j", nd)
         tot = m.sigma(nd, lambda k: out.at(dict(pos, dir=k)))
         c.assume(m.sigma(nd, lambda k: out.at(dict(pos, dir=k))) * 1 != 0)
@@ -231,7 +232,7 @@ def v_cartwright(c, dm_kind):
         if dm_kind == "array":
             dm = xr.DataArray([dm, (dm + 77) % 360], dims=("pos",), coords={"pos": [0, 1]})
             spr = xr.DataArray([spr, spr / 2], dims=("pos",), coords={"pos": [0, 1]})
-        out = c.call(xr.DataArray(dirs, dims=("dir",), coords={"dir": dirs}, name="dir"), dm, spr)
+        out = c.call(xr.DataArray(dirs, dims=("dir",), coords={"dir": dirs}, name="dir"), dm, spr, under_90=under_90)
         integ = out.sum("dir") * (360.0 / nd_)
         c.ensure("integrates_to_one_over_the_circle", bool(np.allclose(integ.values, 1.0, atol=1e-9)))
         c.ensure("non_negative", bool((out.values >= 0).all()))
